@@ -861,6 +861,7 @@ func (g *gen) directedBoundary() {
 }
 
 func (g *gen) streamPart(n int) {
+	g.directedPayloadFinding()
 	g.directedStream()
 	g.directedBoundary()
 	g.serErrorCases()
